@@ -129,7 +129,7 @@ class StoredEditsNative(Contract):
     symbolic = False
     has_native = True
     props = ("C03",)
-    bounded_scope = "part labels assigned to a stored curve; values of stored float / integer / boolean / referenced / text / file / comment data assigned again once or twice (same and later sessions); value map and colour map re-assigned 1-4 times on a stored type (same session and across sessions, fresh dictionaries and the earlier dictionary / map object edited in place); concatenated drillholes renamed / re-planned / re-costed / re-surveyed in a session that does nothing else (both format versions)"
+    bounded_scope = "an attached file renamed in a later session; part labels assigned to a stored curve; values of stored float / integer / boolean / referenced / text / file / comment data assigned again once or twice (same and later sessions); value map and colour map re-assigned 1-4 times on a stored type (same session and across sessions, fresh dictionaries and the earlier dictionary / map object edited in place); concatenated drillholes renamed / re-planned / re-costed / re-surveyed in a session that does nothing else (both format versions)"
 
     def native_cases(self, tier, rng):
         for n in (1, 2, 3, 4):
@@ -142,6 +142,10 @@ class StoredEditsNative(Contract):
         for cls in ("float", "integer", "boolean", "referenced", "text", "file", "comments"):
             for how in ("later-session", "same-session-twice", "later-session-twice"):
                 yield {"kind": "values-reassigned", "cls": cls, "how": how}
+        # an attached file is given another file name, in a later session, with or without its bytes having been read
+        for read_first in (False, True):
+            for target in ("object", "group"):
+                yield {"kind": "file-renamed", "read_first": read_first, "on": target}
         # part labels assigned to a stored curve (they are stored as cells): with and without reading anything back before the close
         for when in ("creating-session", "later-session"):
             for read_back in (False, True):
@@ -321,6 +325,32 @@ class StoredEditsNative(Contract):
                 want = ["first"] + [f"comment {k}" for sess in steps[: steps.index(session) + 1] for k in sess]
             if got != want:
                 return f"{cls} data: after assigning its values again ({case['how']}, assignment #{last}) a later reader sees {got!r}, the writer held {want!r} ({case})"
+        return None
+
+    def _file_renamed(self, case, path):
+        import os
+
+        from geoh5py.groups import ContainerGroup
+        from geoh5py.objects import Points
+        from geoh5py.workspace import Workspace
+
+        blob = bytes(range(200)) * 3
+        src = os.path.join(os.path.dirname(path), "attachment.bin")
+        with open(src, "wb") as fh:
+            fh.write(blob)
+        with Workspace.create(path) as ws:
+            holder = Points.create(ws, name="pts", vertices=np.zeros((2, 3))) if case["on"] == "object" else ContainerGroup.create(ws, name="grp")
+            uid = holder.add_file(src).uid
+        with Workspace(path, mode="r+") as ws:
+            fd = ws.get_entity(uid)[0]
+            if case["read_first"]:
+                _ = fd.values
+            fd.file_name = "renamed.bin"
+        with Workspace(path, mode="r") as ws:
+            fd = ws.get_entity(uid)[0]
+            name, back = fd.file_name, fd.values
+        if name != "renamed.bin" or back is None or bytes(back) != blob:
+            return f"an attached file was given the file name 'renamed.bin'; a later reader sees the name {name!r} and {None if back is None else len(bytes(back))} of its {len(blob)} bytes ({case})"
         return None
 
     def _curve_parts(self, case, path):
